@@ -163,6 +163,7 @@ const smtPrelude = `(set-option :produce-models true)
 (declare-fun at (Slice Int) Int)
 (assert (forall ((s Slice) (i Int)) (! (= (at s i) (+ (s-off s) i)) :pattern ((at s i)))))
 (declare-fun rtype (Int) Int)
+@@PADDR@@
 (declare-fun itrig (Int) Bool)
 (declare-fun itrig2 (Int) Bool)
 (assert (forall ((i Int)) (! (and (itrig i) (itrig2 (- i 1)) (itrig2 (+ i 1))) :pattern ((itrig i)))))
@@ -306,3 +307,12 @@ func sortedKeys[V any](m map[string]V) []string {
 	sort.Strings(ks)
 	return ks
 }
+
+const paddrOn = `(declare-fun paddr (Int Int) Int)
+(declare-fun pinv1 (Int) Int)
+(declare-fun pinv2 (Int) Int)
+(assert (forall ((n Int) (k Int)) (! (and (< (paddr n k) 0) (= (pinv1 (paddr n k)) n) (= (pinv2 (paddr n k)) k)) :pattern ((paddr n k)))))
+(define-fun own ((r Int)) Int (ite (< r 0) (pinv1 r) r))`
+
+// programs without escaping fields never build a paddr term: own is the identity there
+const paddrOff = `(define-fun own ((r Int)) Int r)`
